@@ -90,6 +90,8 @@ type RPCFault struct {
 	// CutAfter > 0 (server-streaming methods): the answer stream breaks after that many messages have been sent -
 	// the caller receives them and then an Unavailable error, as when the connection is lost in the middle
 	CutAfter int
+	// CutOnce: the fault is spent once it has cut one stream (the next call on the method goes through)
+	CutOnce bool
 }
 
 type RPCRecord struct {
@@ -779,6 +781,11 @@ func (s *recStream) SendMsg(m interface{}) error {
 	s.n.rpcMu.Unlock()
 	if ok && f.CutAfter > 0 {
 		if s.sent >= f.CutAfter {
+			if f.CutOnce {
+				s.n.rpcMu.Lock()
+				delete(s.n.rpcFaults, short)
+				s.n.rpcMu.Unlock()
+			}
 			return status.Error(codes.Unavailable, "sim: connection lost while the answer was streamed")
 		}
 		s.sent++
